@@ -268,6 +268,77 @@ def main():
                            "value_bits": v, "impl": g, "spec": e, "how": "harness/C06/apiconv <scratch>; stdin '<A> <T> <n> <hex...>'"})
     except vlib.BuildError as e:
         chk.violation("build", "API harness build failed: " + str(e)[:1500], {"kind": "build"}, found=False)
+    # ---- conversions inside derived fields: two consecutive reads with different return types ----
+    try:
+        exe3 = vlib.build_harness(impl, os.path.join(vlib.VERIF, "harness/C06/derivconv.c"))
+        ncase = 220 if not chk.thorough else 3000
+        dl, dmeta, dm = [], [], []
+        for ci in range(ncase):
+            t = rng.randrange(10)
+            r1, r2 = rng.randrange(12), rng.randrange(12)
+            n = rng.randint(6, 24)
+            n1 = rng.randint(1, n - 2)
+            vals = []
+            for _ in range(n):
+                if t < 8:
+                    bits = [8, 8, 16, 16, 32, 32, 64, 64][t]
+                    lim = min(1 << 23, 1 << (bits - 1))
+                    z = rng.randrange(0 if t % 2 else -lim, lim)
+                    vals.append(z & ((1 << bits) - 1))
+                else:
+                    x = rng.randrange(-(1 << 20), 1 << 20) + rng.choice([0.0, 0.5, 0.25])
+                    vals.append(f32bits(x) if t == 8 else f64bits(x))
+            idx = [1] + [rng.choice([0, 1, 1, 2]) for _ in range(n - 1)]
+            dl.append("%d %d %d %d %d %s | %s" % (t, r1, r2, n1, n, " ".join("%x" % v for v in vals), " ".join(map(str, idx))))
+            # oracle: which source sample each output sample of the second chunk shows
+            last, mp = 0, []
+            for k in range(n):
+                if idx[k] == 1:
+                    last = k
+                mp.append(last)
+            dmeta.append((t, r1, r2, n1, n, vals, idx, mp))
+            for k in range(n1, n):
+                dm.append("%d %d %x" % (t, r2, vals[k]))        # p, l
+                dm.append("%d %d %x" % (t, r2, vals[mp[k]]))    # m, b
+        sd3 = vlib.scratch("verif-c06d-")
+        rc3, o3 = vlib.sh([exe3, sd3], inp=("\n".join(dl) + "\n").encode(), timeout=1500)
+        rcm3, mo3 = vlib.sh([drv], inp=("\n".join(dm) + "\n").encode(), timeout=1500)
+        L = [l for l in o3.split("\n") if l[:2] in ("p ", "l ", "m ", "b ")]
+        E = mo3.strip().split("\n")
+        ei = 0
+        nder = 0
+        bad_d = {}
+        if len(L) != 4 * len(dmeta):
+            chk.violation("deriv-harness", "derived-field harness gave %d lines for %d cases: %s" % (len(L), len(dmeta), o3[-300:]), {"kind": "harness"}, found=False)
+        else:
+            for ci, (t, r1, r2, n1, n, vals, idx, mp) in enumerate(dmeta):
+                nc = 2 if r2 >= 10 else 1
+                exp_direct, exp_mplex = [], []
+                for k in range(n1, n):
+                    exp_direct.append(E[ei].split("|")[0]); exp_mplex.append(E[ei + 1].split("|")[0]); ei += 2
+                for fi, fld in enumerate("plmb"):
+                    w = L[ci * 4 + fi].split()
+                    got = w[2:]
+                    exp = exp_direct if fld in "pl" else exp_mplex
+                    for j in range(n - n1):
+                        nder += 1
+                        g = " ".join(got[j * nc:(j + 1) * nc])
+                        if exp[j] != "U" and g != exp[j]:
+                            bad_d.setdefault((fld, t, r1, r2), []).append((ci, n1 + j, g, exp[j]))
+                            break
+        chk.cov["evaluations"] += nder
+        chk.cov["derived_field_evaluations"] = nder
+        for (fld, t, r1, r2), l in sorted(bad_d.items())[:8]:
+            ci, k, g, e = l[0]
+            found_any = True
+            kind = {"p": "PHASE", "l": "LINCOM", "m": "MPLEX", "b": "PHASE-of-MPLEX"}[fld]
+            chk.violation("derived/%s/%s-as-%s-after-%s" % (kind, NAMES[t], NAMES[r2], NAMES[r1]),
+                          "%s of a %s field: after reading samples [0,%d) as %s, sample %d read as %s is %s; the value held, converted as the property demands, is %s" % (
+                              kind, NAMES[t], dmeta[ci][3], NAMES[r1], k, NAMES[r2], g, e),
+                          {"kind": "impl-vs-spec", "case_line": dl[ci], "field": fld, "sample": k, "impl": g, "spec": e,
+                           "how": "harness/C06/derivconv <scratch>; stdin = case_line (format: f RAW T 1; i RAW UINT8 1; p PHASE f 0; l LINCOM 1 f 1 0; m MPLEX f i 1; b PHASE m 0)"})
+    except vlib.BuildError as e:
+        chk.violation("build", "derived-field harness build failed: " + str(e)[:1500], {"kind": "build"}, found=False)
     if trans_problems and not found_any:
         chk.violation("translator", "translator cannot read src/types.c: " + "; ".join(trans_problems[:3]),
                       {"kind": "translator", "problems": trans_problems, "theorem": "conv_table_all_cells_ok (table no longer regenerable)"}, found=False)
